@@ -102,4 +102,104 @@ theorem single_fork_bystander (c : Cl) (S : List Ev) (l : List Ev) (nx : Nat)
     obtain ⟨r, hr', hbr⟩ := hrel.blk e (hl e he) (hblk (key e) (List.mem_map.mpr ⟨e, he, rfl⟩) hk)
     exact ⟨r, hr', hbr.1⟩
 
+/-- the group name after a commit with body `b` -/
+def nameAfter (b : Body) (old : Nat) : Nat :=
+  match b with
+  | .setName t => t
+  | _ => old
+
+/-- what "the group data is `w`'s" means: name per the commit body, admins kept, no pending commit or
+    proposals, and the stored record in step with it -/
+theorem childG_data (c : Cl) (w : Ev) (b : Body) (sw : List Nat) (hk : w.kind = .commit b sw) :
+    (childG c w).name = nameAfter b c.g.name ∧
+    (childG c w).admins = c.g.admins ∧ (childG c w).pending = none ∧ (childG c w).props = [] ∧
+    (childG c w).recName = (childG c w).name ∧ (childG c w).recEpoch = epochOf (childG c w).path := by
+  have e1 : (gP c).name = c.g.name := ensureSecret_name _
+  have e2 : (gP c).admins = c.g.admins := ensureSecret_admins _
+  have hf := ensureSecret_fields (mergeCommit c.maxPast (gP c) w)
+  simp only [childG, syncRec, hf]
+  cases b <;> simp [mergeCommit, hk, applyBody, e1, e2, nameAfter]
+
+/-! ### the excluded case: retention 0
+
+  With `snapshot retention = 0` the snapshot taken before applying a commit is dropped at once, so a
+  better sibling arriving later finds nothing to compare with (`isBetter_no_snapshot`) and is refused:
+  the client stays on the first sibling it saw.  (MdkConfig's default retention is 5; 0 is a legal
+  configuration value.) -/
+
+/-- the statement without the retention hypothesis -/
+def single_fork_bystander_full : Prop :=
+  ∀ (c : Cl) (S l : List Ev) (nx : Nat), c.hasGroup = true → SecretsOK c.g → NoForkSnapshot c →
+    Siblings c S → (∀ e ∈ l, e ∈ S) → l ≠ [] →
+    ∃ w ∈ l, (∀ e ∈ l, e = w ∨ klt (key w) (key e) = true) ∧
+      (l.foldl (fun c e => (deliver c e nx).1) c).g.path = c.g.path ++ [w.n]
+
+def cA : Ev := { n := 1, ts := 20, idnum := 7, cipher := 1, sender := 1, path := [], kind := .commit .selfUpdate [] }
+def cB : Ev := { n := 2, ts := 19, idnum := 9, cipher := 2, sender := 0, path := [], kind := .commit (.setName 4) [] }
+def cC : Ev := { n := 3, ts := 19, idnum := 11, cipher := 3, sender := 0, path := [], kind := .commit (.setName 5) [] }
+def by0 (retention : Nat) : Cl := initCl 2 false retention [0, 1, 2] [0, 1] 1
+
+theorem by0_secrets (r : Nat) : SecretsOK (by0 r).g := by intro ep q h; simp [by0, initCl, initG, alookup] at h
+theorem by0_nosnap (r : Nat) : NoForkSnapshot (by0 r) := by intro s hs; simp [by0, initCl] at hs
+
+theorem by0_siblings0 : Siblings (by0 0) [cA, cB, cC] where
+  path := by decide
+  kind := by
+    intro e he
+    simp only [List.mem_cons, List.not_mem_nil, or_false] at he
+    rcases he with rfl | rfl | rfl
+    · exact ⟨.selfUpdate, [], rfl, by decide⟩
+    · exact ⟨.setName 4, [], rfl, by decide⟩
+    · exact ⟨.setName 5, [], rfl, by decide⟩
+  foreign := by decide
+  ts := by decide
+  distinct := by decide
+  unseen := by decide
+
+theorem by0_siblings5 : Siblings (by0 5) [cA, cB, cC] where
+  path := by decide
+  kind := by
+    intro e he
+    simp only [List.mem_cons, List.not_mem_nil, or_false] at he
+    rcases he with rfl | rfl | rfl
+    · exact ⟨.selfUpdate, [], rfl, by decide⟩
+    · exact ⟨.setName 4, [], rfl, by decide⟩
+    · exact ⟨.setName 5, [], rfl, by decide⟩
+  foreign := by decide
+  ts := by decide
+  distinct := by decide
+  unseen := by decide
+
+/-- `retention-zero-no-rollback`: A then the better B with retention 0 — the client stays on A -/
+theorem witness_retention_zero :
+    ([cA, cB].foldl (fun c e => (deliver c e 0).1) (by0 0)).g.path = [1] ∧
+    ([cA, cB].foldl (fun c e => (deliver c e 0).1) (by0 5)).g.path = [2] := by decide
+
+theorem single_fork_bystander_full_false : ¬ single_fork_bystander_full := by
+  intro h
+  obtain ⟨w, hw, hmin, hpath⟩ := h (by0 0) [cA, cB, cC] [cA, cB] 0 rfl (by0_secrets 0) (by0_nosnap 0) by0_siblings0
+    (by decide) (by decide)
+  have hwB : w = cB := by
+    simp only [List.mem_cons, List.not_mem_nil, or_false] at hw
+    rcases hw with rfl | rfl
+    · rcases hmin cB (by decide) with x | x
+      · exact x.symm
+      · revert x; decide
+    · rfl
+  subst hwB
+  rw [witness_retention_zero.1] at hpath
+  revert hpath; decide
+
+/-- non-vacuity: three siblings, a four-element delivery list with a repetition; the theorem applies
+    (its hypotheses hold) and its conclusion is the MIP-03 winner B (ts 19, id 9 < C: ts 19, id 11 < A: ts 20) -/
+example : ∃ w ∈ [cA, cC, cA, cB], ([cA, cC, cA, cB].foldl (fun c e => (deliver c e 0).1) (by0 5)).g.path = (by0 5).g.path ++ [w.n] := by
+  obtain ⟨w, hw, _, hp, _⟩ := single_fork_bystander (by0 5) [cA, cB, cC] [cA, cC, cA, cB] 0 rfl (by decide)
+    (by0_secrets 5) (by0_nosnap 5) by0_siblings5 (by decide) (by decide)
+  exact ⟨w, hw, hp⟩
+
+example : ([cA, cC, cA, cB].foldl (fun c e => (deliver c e 0).1) (by0 5)).g.path = [2] ∧
+    ([cA, cC, cA, cB].foldl (fun c e => (deliver c e 0).1) (by0 5)).g.name = 4 ∧
+    (getRec ([cA, cC, cA, cB].foldl (fun c e => (deliver c e 0).1) (by0 5)) 1).map (·.state) = some 4 ∧
+    (getRec ([cA, cC, cA, cB].foldl (fun c e => (deliver c e 0).1) (by0 5)) 3).map (·.state) = some 4 := by decide
+
 end MdkVerif.Props.C01Fork
